@@ -14,7 +14,7 @@
 
 From Coq Require Import String List NArith Bool Arith.
 From Nexus Require Import Conc.SkelTypes Conc.Machine Conc.MachineFacts Conc.Shutdown
-  Conc.ShutdownWitness Conc.ShutdownProofs Conc.ShutdownLock Conc.ShutdownFlag Conc.Skeleton Conc.SkelObligationsC06 gen.GenSkeleton.
+  Conc.ShutdownWitness Conc.ShutdownProofs Conc.ShutdownLock Conc.ShutdownFlag Conc.ShutdownWg Conc.Skeleton Conc.SkelObligationsC06 gen.GenSkeleton.
 Import ListNotations.
 
 (** ** Tie to the source, re-established on every run *)
@@ -70,6 +70,26 @@ Theorem late_attach_refused :
        sstep all_fixed scr K s (EInt i 0) = Some (set_proc s i (AtRefUnlock j))).
 Proof. exact ShutdownFlag.late_attach_refused. Qed.
 Print Assumptions late_attach_refused.
+
+
+(** [waitHandlers] counts exactly the sessions between [waitHandlers.Add] and
+    [waitHandlers.Done] — what [realm.close] relies on when it waits for the
+    handlers — and a handler's [Done] is never the negative-counter panic
+    (part of close_no_panic). *)
+Theorem wait_handlers_counts_live_sessions :
+  forall (scr : nat -> list msg * bool) (K : nat) (p : params) (s : sstate),
+    sreach all_fixed scr K (init p) s -> outcome s = None ->
+    wgs s WHandlers = count live (procs s).
+Proof. intros scr K p s Hr Ho. exact (proj2 (wg_handlers_invariant scr K p s Hr Ho)). Qed.
+Print Assumptions wait_handlers_counts_live_sessions.
+
+Theorem close_no_panic_wait_group :
+  forall (scr : nat -> list msg * bool) (K : nat) (p : params) (s : sstate) i l k,
+    sreach all_fixed scr K (init p) s -> outcome s = None ->
+    nth_error (procs s) i = Some l -> code all_fixed scr K l = AWgDone WHandlers k ->
+    wgs s WHandlers <> 0.
+Proof. exact ShutdownWg.wg_handlers_never_negative. Qed.
+Print Assumptions close_no_panic_wait_group.
 
 Theorem closed_flag_monotone :
   forall (scr : nat -> list msg * bool) (K : nat) (s : sstate) e s',
